@@ -368,7 +368,10 @@ def _prebuilt_files(ctx, rep, base, model_rows):
         "renamed": pa.schema([pa.field("a", pa.int64(), nullable=False), pa.field("B", pa.string(), nullable=True)]),
     }
     i = 0
-    for name, sch in variants.items():
+    for name, sch, tag in [(n_, s_, FileFormat.PARQUET) for n_, s_ in variants.items()] + \
+            [(n_, variants[n_], t_) for n_ in ("exact", "reordered", "missing-column", "renamed") for t_ in (FileFormat.ORC, FileFormat.AVRO)]:
+        # (the read path opens EVERY data file with the parquet reader, whatever format tag its entry carries: the tag must not switch
+        # the footer check off)
         for api in ("table.append_data", "tx.append_files"):
             for handle in ("reused", "fresh"):
                 i += 1
@@ -380,11 +383,11 @@ def _prebuilt_files(ctx, rep, base, model_rows):
                 os.makedirs(os.path.join(p, "data"), exist_ok=True)
                 fp = os.path.join(p, "data", "prebuilt.parquet")
                 pq.write_table(tab, fp)
-                df = DataFile(file_path="/data/prebuilt.parquet", file_format=FileFormat.PARQUET, partition_values={}, record_count=2,
+                df = DataFile(file_path="/data/prebuilt.parquet", file_format=tag, partition_values={}, record_count=2,
                               file_size_in_bytes=os.path.getsize(fp))
                 h = t if handle == "reused" else load_table(p)
                 before = _state(p)
-                case = {"kind": "prebuilt-file", "footer": name, "api": api, "handle": handle}
+                case = {"kind": "prebuilt-file", "footer": name, "api": api, "handle": handle, "format_tag": str(getattr(tag, "value", tag))}
                 rep.evaluations += 1
                 rep.nontrivial(["prebuilt", name, api, handle])
                 try:
